@@ -17,6 +17,9 @@ extern "C" void __sanitizer_set_death_callback(void (*)(void));
 #endif
 #endif
 
+extern "C" const char* __asan_default_options() { return "exitcode=3:detect_leaks=0:allocator_may_return_null=1:handle_abort=1:handle_sigfpe=1:handle_sigill=1:detect_stack_use_after_return=0"; }
+extern "C" const char* __tsan_default_options() { return "exitcode=3:halt_on_error=1"; }
+extern "C" const char* __ubsan_default_options() { return "halt_on_error=1:print_stacktrace=1"; }
 namespace eng {
 std::set<std::string> g_known;
 Params g_params;
@@ -172,7 +175,7 @@ static void gen_bytes(uint64_t seed, uint64_t i, unsigned max_scale, std::vector
   uint64_t sel = next() % 16;
   if (sel == 0) scale = max_scale - (unsigned)(next() % (max_scale / 4 + 1));      // some at the top
   else if (sel <= 3) scale = (unsigned)(next() % 12);                               // plenty tiny
-  else scale = (unsigned)(max_scale * u * u);
+  else scale = (unsigned)(max_scale * std::pow(u, 1.25));
   if (scale > max_scale) scale = max_scale;
   size_t len = 96 + (size_t)(next() % 160) + (sel >= 12 ? (size_t)(next() % 2048) : 0);
   out.resize(len);
